@@ -199,7 +199,7 @@ pub trait MemCaps: MemBuilder + 'static {
     fn reserve<Tr: ?Sized + TrCaps, T: Elem>(v: &mut AnyVec<Tr, Self>, n: usize, exact: bool, typed: bool) -> bool;
     fn shrink<Tr: ?Sized + TrCaps, T: Elem>(v: &mut AnyVec<Tr, Self>, to: Option<usize>, typed: bool) -> bool;
     /// into_raw_parts / from_raw_parts `times` times; reports field mismatches through `note`.
-    fn round_trip<Tr: ?Sized + TrCaps>(v: AnyVec<Tr, Self>, times: u8, note: &mut dyn FnMut(String)) -> (AnyVec<Tr, Self>, bool);
+    fn round_trip<Tr: ?Sized + TrCaps>(v: AnyVec<Tr, Self>, times: u8, note: &mut dyn FnMut(std::fmt::Arguments)) -> (AnyVec<Tr, Self>, bool);
 }
 
 macro_rules! resizable_impl {
@@ -240,7 +240,7 @@ macro_rules! fixed_impl {
         fn shrink<Tr: ?Sized + TrCaps, T: Elem>(_v: &mut AnyVec<Tr, Self>, _to: Option<usize>, _typed: bool) -> bool {
             false
         }
-        fn round_trip<Tr: ?Sized + TrCaps>(v: AnyVec<Tr, Self>, _times: u8, _note: &mut dyn FnMut(String)) -> (AnyVec<Tr, Self>, bool) {
+        fn round_trip<Tr: ?Sized + TrCaps>(v: AnyVec<Tr, Self>, _times: u8, _note: &mut dyn FnMut(std::fmt::Arguments)) -> (AnyVec<Tr, Self>, bool) {
             (v, false)
         }
     };
@@ -266,7 +266,7 @@ mod heap_caps {
             if cap == 0 { AnyVec::new::<T>() } else { AnyVec::with_capacity::<T>(cap) }
         }
         resizable_impl!();
-        fn round_trip<Tr: ?Sized + TrCaps>(v: AnyVec<Tr, Self>, times: u8, note: &mut dyn FnMut(String)) -> (AnyVec<Tr, Self>, bool) {
+        fn round_trip<Tr: ?Sized + TrCaps>(v: AnyVec<Tr, Self>, times: u8, note: &mut dyn FnMut(std::fmt::Arguments)) -> (AnyVec<Tr, Self>, bool) {
             let mut v = v;
             for _ in 0..times {
                 let len = v.len();
@@ -277,23 +277,23 @@ mod heap_caps {
                 let clonef = Tr::clone_fn_addr(&v);
                 let base = v.as_bytes().as_ptr() as usize;
                 let parts: RawParts<Heap> = v.into_raw_parts();
-                if parts.len != len { note(format!("RawParts.len={} but vector len was {}", parts.len, len)); }
-                if parts.capacity != cap { note(format!("RawParts.capacity={} but vector capacity was {}", parts.capacity, cap)); }
-                if parts.element_layout != layout { note(format!("RawParts.element_layout={:?} != {:?}", parts.element_layout, layout)); }
-                if parts.element_typeid != tid { note("RawParts.element_typeid differs".to_string()); }
-                if parts.element_drop.map(|f| f as usize) != dropf { note("RawParts.element_drop differs".to_string()); }
+                if parts.len != len { note(format_args!("RawParts.len={} but vector len was {}", parts.len, len)); }
+                if parts.capacity != cap { note(format_args!("RawParts.capacity={} but vector capacity was {}", parts.capacity, cap)); }
+                if parts.element_layout != layout { note(format_args!("RawParts.element_layout={:?} != {:?}", parts.element_layout, layout)); }
+                if parts.element_typeid != tid { note(format_args!("RawParts.element_typeid differs")); }
+                if parts.element_drop.map(|f| f as usize) != dropf { note(format_args!("RawParts.element_drop differs")); }
                 if let Some(c) = clonef {
-                    if parts.element_clone as usize != c { note("RawParts.element_clone differs".to_string()); }
+                    if parts.element_clone as usize != c { note(format_args!("RawParts.element_clone differs")); }
                 }
-                if parts.mem_handle.as_ptr() as usize != base { note(format!("RawParts.mem_handle={:#x} but storage was at {:#x}", parts.mem_handle.as_ptr() as usize, base)); }
+                if parts.mem_handle.as_ptr() as usize != base { note(format_args!("RawParts.mem_handle={:#x} but storage was at {:#x}", parts.mem_handle.as_ptr() as usize, base)); }
                 let c2 = parts.clone();
-                if c2.len != parts.len { note(format!("RawParts::clone().len={} but original len={}", c2.len, parts.len)); }
-                if c2.capacity != parts.capacity { note(format!("RawParts::clone().capacity={} but original={}", c2.capacity, parts.capacity)); }
-                if c2.element_layout != parts.element_layout { note("RawParts::clone().element_layout differs".to_string()); }
-                if c2.element_typeid != parts.element_typeid { note("RawParts::clone().element_typeid differs".to_string()); }
-                if c2.element_drop.map(|f| f as usize) != parts.element_drop.map(|f| f as usize) { note("RawParts::clone().element_drop differs".to_string()); }
-                if c2.element_clone as usize != parts.element_clone as usize { note("RawParts::clone().element_clone differs".to_string()); }
-                if c2.mem_handle != parts.mem_handle { note("RawParts::clone().mem_handle differs".to_string()); }
+                if c2.len != parts.len { note(format_args!("RawParts::clone().len={} but original len={}", c2.len, parts.len)); }
+                if c2.capacity != parts.capacity { note(format_args!("RawParts::clone().capacity={} but original={}", c2.capacity, parts.capacity)); }
+                if c2.element_layout != parts.element_layout { note(format_args!("RawParts::clone().element_layout differs")); }
+                if c2.element_typeid != parts.element_typeid { note(format_args!("RawParts::clone().element_typeid differs")); }
+                if c2.element_drop.map(|f| f as usize) != parts.element_drop.map(|f| f as usize) { note(format_args!("RawParts::clone().element_drop differs")); }
+                if c2.element_clone as usize != parts.element_clone as usize { note(format_args!("RawParts::clone().element_clone differs")); }
+                if c2.mem_handle != parts.mem_handle { note(format_args!("RawParts::clone().mem_handle differs")); }
                 v = unsafe { AnyVec::from_raw_parts(parts) };
             }
             (v, true)
@@ -315,7 +315,7 @@ impl MemCaps for GuardMem {
         if cap == 0 { AnyVec::new_in::<T>(GuardMem::default()) } else { AnyVec::with_capacity_in::<T>(cap, GuardMem::default()) }
     }
     resizable_impl!();
-    fn round_trip<Tr: ?Sized + TrCaps>(v: AnyVec<Tr, Self>, _times: u8, _note: &mut dyn FnMut(String)) -> (AnyVec<Tr, Self>, bool) {
+    fn round_trip<Tr: ?Sized + TrCaps>(v: AnyVec<Tr, Self>, _times: u8, _note: &mut dyn FnMut(std::fmt::Arguments)) -> (AnyVec<Tr, Self>, bool) {
         (v, false)
     }
 }
